@@ -104,12 +104,16 @@ def prepare(spec):
 
 
 def install_pair(cert_cfg, mode):
-    """Step: put a certificate/key pair on disk before the daemon runs. mode: 'pair' | 'badkey' | 'mismatch'."""
+    """Step: put a certificate/key pair on disk before the daemon runs. mode: 'pair' | 'badkey' | 'mismatch' | 'othertype'
+    (a consistent pair whose key is usable but not of the configured key_type, as after an edit of key_type with a file name format that does not
+    mention it)."""
     def f(sc):
         vc = vcrypto.shared()
         cid = project.cert_id(cert_cfg)
         base = os.path.join(sc.world.certs, cid)
         kt = (cert_cfg.get("key_type") or "rsa2048")
+        if mode == "othertype":
+            kt = "ecdsa_p384" if not kt.startswith("ecdsa") else "rsa2048"
         ca = vc.must("make_ca", cn="pre-existing CA")
         dns = [i["dns"] for i in cert_cfg["identifiers"] if "dns" in i]
         ips = [i["ip"] for i in cert_cfg["identifiers"] if "ip" in i]
